@@ -23,6 +23,7 @@ func init() {
 			{Name: "fault", Test: "^TestFault$", Quick: 1000, Thorough: 3000, Shards: 6},
 			{Name: "race", Test: "^TestRace$", Quick: 150, Thorough: 2000, Race: true, GoMaxProcs: []int{4, 1, 2, 16}},
 			{Name: "cli", Test: "^TestCLI$", Quick: 60, Thorough: 800, Shards: 4},
+			{Name: "cli-two-alignments", Test: "^TestCLITwoAlignments$", Quick: 300, Thorough: 3000, Shards: 2},
 		},
 	})
 }
